@@ -134,9 +134,15 @@ def one_case(args):
         out["viol"] = ("stats-file:%s" % what.split(":")[0], "%s: %s" % (desc, what), d)
         return out
     try:
-        a = obs.run(exe, base, workdir=wd, stats=fmt, tag="c%da" % case)
+        # half of the runs write to a path that already holds a longer statistics file of an earlier run
+        old_file = (json.dumps({"is_finalized": True, "note": "x" * 40000}).encode() if fmt == "json" else ("note = \"%s\"\n" % ("x" * 40000)).encode()) if case % 2 == 0 else None
+        a = obs.run(exe, base, workdir=wd, stats=fmt, tag="c%da" % case, prefill_stats=old_file)
         out["runs"] += 1
+        if a.rc == 1 and "Init processing failed" in a.stderr:
+            return out      # a mutation hit the first RDH0: unrecognised input, not part of this workload
         if a.abnormal(allowed_rc=(0, N)) or a.stats is None:
+            if a.stats is None and a.stats_raw is not None and not a.abnormal(allowed_rc=(0, N)):
+                return bad("unparsable: the statistics file written%s cannot be parsed (%d bytes)" % (" over an existing longer file" if old_file else "", len(a.stats_raw)), a, a.stats_raw[:3000])
             return bad("abnormal end of the writing run: %s" % a.abnormal(allowed_rc=(0, N)), a)
         if a.stats["error_stats"].get("fatal_error"):
             return out
